@@ -144,3 +144,135 @@ for _same in (True, False):
                    bounds='reward, fee full u128 (fee may be 0), epochs u64, no pre-existing farms',
                    covers=['ok'] if _shape in ('exact', 'reward_only') or (_shape == 'overpay_fee' and not _same) else ['rejected'],
                    replay=_replay_create(_same, _shape))(_ob_create(_same, _shape))
+
+
+def _existing_farm(I, ep, now, k, owner, kind):
+    funded = I.sym('f%d_funded' % k, lo=1, hi=U128)
+    claimed = I.sym('f%d_claimed' % k, hi=U128)
+    I.assume(claimed <= funded)
+    if kind == 'expired':
+        # ended long ago: end epoch + expiration time passed (time consistent with the epoch, C18)
+        I.assume(ep >= 60)
+        start, end = 1, 3
+    else:
+        I.assume(claimed < funded)
+        start, end = simp(ep - 1) if kind == 'active' else simp(ep + 1), simp(ep + 5)
+    f = farm('m-old%d' % k, owner, LP1, 'uusd', funded, claimed, 1, start, end)
+    put_farm(I, f)
+    return funded, claimed
+
+
+@obligation('C11', 'S2.create_closes_expired_and_respects_limit', entries=['execute', 'create_farm', 'is_farm_expired', 'close_farms', 'reply'], kind='S',
+            statement='creating a farm when the LP token already has farms: expired ones are closed and refunded funded-claimed to THEIR owners; '
+                      'afterwards the LP token has at most max_concurrent_farms unexpired farms (creation refused otherwise)',
+            bounds='2 existing farms, each active or expired (symbolic budgets), max_concurrent_farms = 2', covers=['ok', 'too_many'])
+def s2(I):
+    I.set_hint(dict(HINT, epoch=100, now_s=100 * DAY + 5, start=101, end=111))
+    now, ep, b = _world(I)
+    fm_config(I, fee=coin_v('uom', 1000), max_concurrent=2)
+    kinds = [['active', 'expired'][I.choose(2, 'k%d' % k)] for k in (1, 2)]
+    budgets = [_existing_farm(I, ep, now, k, 'owner%d' % k, kinds[k - 1]) for k in (1, 2)]
+    held = I.sym('fm_usd', hi=U128)
+    I.assume(held >= sum((f - c) for f, c in budgets))
+    b.set(FM, 'uusd', held)
+    reward = I.sym('reward', lo=1000, hi=U128 // 2)
+    b.set('creator', 'uusd', reward)
+    b.set('creator', 'uom', 1000)
+    ch = Chain(I, CONTRACTS_FM)
+    pre = b.snapshot()
+    st, resp = ch.execute('creator', FM, manage_farm('Create', params=farm_params(LP1, coin_v('uusd', reward), simp(ep + 1), simp(ep + 11))),
+                          [coin_v('uom', 1000), coin_v('uusd', reward)])
+    n_active = sum(1 for k in kinds if k == 'active')
+    if st != 'ok':
+        I.cover('too_many', HINT)
+        I.check('rejected_only_when_limit_reached', n_active >= 2)
+        return
+    I.cover('ok', HINT)
+    I.check('accepted_only_below_limit', n_active < 2)
+    for k, kind in zip((1, 2), kinds):
+        funded, claimed = budgets[k - 1]
+        o = 'owner%d' % k
+        if kind == 'expired':
+            I.check('expired_farm_removed', get_farm(I, 'm-old%d' % k) is None)
+            I.check('expired_farm_refunded_to_its_owner', smt.Eq(b.get(o, 'uusd'), pre.get(o, 'uusd') + funded - claimed))
+        else:
+            I.check('live_farm_kept', get_farm(I, 'm-old%d' % k) is not None)
+            I.check('live_farm_owner_not_paid', smt.Eq(b.get(o, 'uusd'), pre.get(o, 'uusd')))
+    ms = I.world.store(FM).get('farms')
+    I.check('at_most_max_concurrent_unexpired', len(ms.entries) <= 2)
+
+
+@obligation('C11', 'S3.expand_farm', entries=['execute', 'expand_farm', 'is_farm_expired'], kind='S',
+            statement='expand: only the farm owner, only while current epoch < end and not expired, only the same reward denom, only multiples of the emission rate; '
+                      'budget += attached amount, end += amount/rate; nothing else changes',
+            bounds='amounts full u128, sender in {owner, stranger, contract owner}, reward denom same/other', covers=['ok', 'rejected'])
+def s3(I):
+    I.set_hint(HINT)
+    now, ep, b = _world(I)
+    fm_config(I)
+    funded = I.sym('funded', lo=1, hi=U128)
+    claimed = I.sym('claimed', hi=U128)
+    I.assume(claimed <= funded)
+    rate = I.sym('rate', lo=1, hi=U128)
+    cstart = I.sym('cur_start', lo=1, hi=10 ** 9)
+    cend = I.sym('cur_end', lo=2, hi=10 ** 9 + 100)
+    I.assume(cstart < cend)
+    put_farm(I, farm('m-x', 'fowner', LP1, 'uusd', funded, claimed, rate, cstart, cend))
+    add = I.sym('expand', lo=1, hi=U128)
+    who = ['fowner', 'bob', 'admin'][I.choose(3, 'sender')]
+    denom = ['uusd', 'uom'][I.choose(2, 'denom')]
+    b.set(who, denom, add)
+    ch = Chain(I, CONTRACTS_FM)
+    pre = b.snapshot()
+    st, resp = ch.execute(who, FM, manage_farm('Expand', params=farm_params(LP1, coin_v(denom, add), ident='m-x')), [coin_v(denom, add)])
+    if st != 'ok':
+        I.cover('rejected', HINT)
+        return
+    I.cover('ok', HINT)
+    f = get_farm(I, 'm-x')
+    I.check('only_owner_expands', who == 'fowner')
+    I.check('only_same_denom', denom == 'uusd')
+    I.check('only_before_end', ep < cend)
+    I.check('only_unclaimed_farms', claimed < funded)
+    I.check('only_multiples_of_rate', smt.Eq(I.ctx.fmod(add, rate), 0))
+    I.check('budget_grows_by_funds', smt.Eq(f.get('farm_asset').get('amount'), funded + add))
+    I.check('end_extends_by_amount_over_rate', smt.Eq(f.get('preliminary_end_epoch'), cend + I.ctx.fdiv(add, rate)))
+    I.check('rest_unchanged', smt.And(smt.Eq(f.get('claimed_amount'), claimed), smt.Eq(f.get('emission_rate'), rate), smt.Eq(f.get('start_epoch'), cstart),
+                                      f.get('owner') == 'fowner'))
+    I.check('contract_holds_the_funds', smt.Eq(b.get(FM, 'uusd'), pre.get(FM, 'uusd') + add))
+
+
+@obligation('C11', 'S4.close_farm', entries=['execute', 'close_farm', 'close_farms', 'is_owner', 'reply'], kind='S',
+            statement='close: only the farm owner or the contract owner, no funds accepted; refunds exactly funded-claimed to the FARM owner and to nobody else; farm removed',
+            bounds='budgets full u128, sender in {farm owner, contract owner, stranger}, with/without funds', covers=['ok', 'rejected'])
+def s4(I):
+    I.set_hint(HINT)
+    now, ep, b = _world(I)
+    fm_config(I)
+    funded = I.sym('funded', lo=1, hi=U128)
+    claimed = I.sym('claimed', hi=U128)
+    I.assume(claimed <= funded)
+    put_farm(I, farm('m-x', 'fowner', LP1, 'uusd', funded, claimed, 1, 5, 50))
+    held = I.sym('fm_usd', hi=U128)
+    I.assume(held >= funded - claimed)
+    b.set(FM, 'uusd', held)
+    who = ['fowner', 'admin', 'bob'][I.choose(3, 'sender')]
+    with_funds = I.choose(2, 'funds') == 1
+    funds = [coin_v('uom', 5)] if with_funds else []
+    if with_funds:
+        b.set(who, 'uom', 5)
+    ch = Chain(I, CONTRACTS_FM)
+    pre = b.snapshot()
+    st, resp = ch.execute(who, FM, manage_farm('Close', farm_identifier='m-x'), funds)
+    if st != 'ok':
+        I.cover('rejected', HINT)
+        I.check('authorised_unfunded_close_accepted', not (who in ('fowner', 'admin') and not with_funds))
+        return
+    I.cover('ok', HINT)
+    I.check('only_farm_owner_or_contract_owner', who in ('fowner', 'admin'))
+    I.check('no_funds_accepted', not with_funds)
+    I.check('farm_removed', get_farm(I, 'm-x') is None)
+    I.check('refund_exact_to_farm_owner', smt.Eq(b.get('fowner', 'uusd'), pre.get('fowner', 'uusd') + funded - claimed))
+    I.check('contract_debited_exactly', smt.Eq(b.get(FM, 'uusd'), pre.get(FM, 'uusd') - (funded - claimed)))
+    if who != 'fowner':
+        I.check('closer_gets_nothing', smt.Eq(b.get(who, 'uusd'), pre.get(who, 'uusd')))
